@@ -62,6 +62,59 @@ fn crowded_recs(rng: &mut Rng, lang: &str, n: usize, corpus: &[Rec], distinct: b
         .collect()
 }
 
+/// Families of similar words (shared prefixes, one letter apart): records whose scores depend on
+/// fuzzy matching, where scratch state left by a neighbouring record would show.
+fn similar_recs(rng: &mut Rng, lang: &str, n: usize) -> (Vec<Rec>, Vec<String>) {
+    let alpha = gen::lower_alphabet(lang);
+    let v: Vec<&str> = gen::vocab(lang).into_iter().filter(|w| w.chars().count() >= 5 && w.chars().all(|c| c.is_alphabetic())).collect();
+    let mut family: Vec<String> = vec![];
+    for _ in 0..rng.range(1, 2) {
+        let base: Vec<char> = if rng.chance(1, 3) || v.is_empty() { cv(&gen::rand_word(rng, &alpha, 5, 8)) } else { { let w: &str = *rng.pick(&v[..]); w.chars().flat_map(|c| c.to_lowercase()).collect() } };
+        family.push(s(&base));
+        for _ in 0..rng.range(2, 4) {
+            let mut w = base.clone();
+            let p = rng.range(1, w.len() - 1);
+            match rng.below(3) {
+                0 => w[p] = *rng.pick(&alpha),
+                1 => w.insert(p, *rng.pick(&alpha)),
+                _ => {
+                    w.remove(p);
+                }
+            }
+            family.push(s(&w));
+        }
+    }
+    let mut ratings: Vec<usize> = (0..n).map(|i| i * 5 + 1 + rng.below(5)).collect();
+    rng.shuffle(&mut ratings);
+    let recs = (0..n)
+        .map(|i| {
+            let mut t = rng.pick(&family).clone();
+            if rng.chance(1, 3) {
+                t = format!("{} {}", t, rng.pick(&family));
+            }
+            (1000 + i, t, ratings[i])
+        })
+        .collect();
+    (recs, family)
+}
+
+fn similar_query(rng: &mut Rng, lang: &str, family: &[String]) -> String {
+    let alpha = gen::lower_alphabet(lang);
+    let w = cv(rng.pick(family).as_str());
+    match rng.below(6) {
+        0 => s(&w[..rng.range(1, w.len())]),
+        1 => s(&w),
+        2 | 3 => {
+            // adjacent transposition
+            let mut e = w.clone();
+            let p = rng.below(e.len() - 1);
+            e.swap(p, p + 1);
+            s(&e)
+        }
+        _ => s(&gen::rand_edit(rng, &w, &alpha)),
+    }
+}
+
 impl Ranking {
     fn verdicts(&self, cx: &mut Cx, lang: &'static str) {
         let corpus = corpus_recs();
@@ -165,14 +218,18 @@ impl Ranking {
 
     fn order(&self, cx: &mut Cx, lang: &'static str) {
         let corpus = corpus_recs();
-        let n = cx.rng.range(2, 30);
-        let recs = crowded_recs(&mut cx.rng, lang, n, &corpus, true);
+        let similar = cx.rng.chance(1, 2);
+        let n = if similar { cx.rng.range(2, 8) } else { cx.rng.range(2, 30) };
+        let (recs, family) = if similar { similar_recs(&mut cx.rng, lang, n) } else { (crowded_recs(&mut cx.rng, lang, n, &corpus, true), vec![]) };
+        if similar {
+            cx.count("stores of similar words");
+        }
         let limit = *cx.rng.pick(&[n, n + 1, 10.max(n / 10 + 1), (n + 9) / 10, n.max(3) / 3 + 1]);
         let limit = limit.max((n + 9) / 10); // |store| <= 10*limit
         let st = St::build_sentinel(lang, &recs, limit);
         let unl = St::build_sentinel(lang, &recs, n + 1);
         for _ in 0..3 {
-            let q = rank_query(&mut cx.rng, lang, &st.store.lang, &recs);
+            let q = if similar { similar_query(&mut cx.rng, lang, &family) } else { rank_query(&mut cx.rng, lang, &st.store.lang, &recs) };
             cx.ctx(format!("C07 lang={} recs={:?} limit={} q={:?}", lang, recs, limit, q));
             let base = st.search(&q);
             let all = unl.search(&q);
@@ -312,10 +369,12 @@ impl Ranking {
                 t.words.len() == 1 && t.words[0].is_function()
             });
             if !recognised {
+                // the frozen list is the specification: the rule is evaluated anyway, so a build that
+                // stops recognising a listed word fails the rule instead of silently skipping it
                 cx.count("function words not recognised by this build");
-                continue;
+            } else {
+                cx.count("function words recognised");
             }
-            cx.count("function words recognised");
             let fchars: BTreeSet<char> = with_lang(lang, |l| gen::tok_record(l, f).chars.iter().cloned().collect());
             let alpha: Vec<char> = alpha_all.iter().cloned().filter(|c| !fchars.contains(c) && !f.contains(*c)).collect();
             let suffix = gen::rand_word(&mut cx.rng, &alpha, 2, 6);
@@ -454,12 +513,12 @@ impl Ranking {
 /// Single-word function words (frozen list, DESIGN.md Appendix A).
 pub fn function_words(lang: &str) -> Vec<&'static str> {
     match lang {
-        "en" => vec!["a", "an", "the", "to", "of", "in", "for", "and", "on", "at", "by", "or", "as", "if", "so"],
-        "de" => vec!["der", "die", "das", "für", "zu", "an", "auf", "und", "mit", "in", "ja", "bloß"],
-        "es" => vec!["el", "la", "de", "y", "con", "para", "en", "un", "a", "o"],
-        "fr" => vec!["le", "la", "de", "et", "à", "un", "une", "du", "des", "dans", "sur", "pour", "par"],
-        "pt" => vec!["o", "a", "de", "e", "com", "para", "em", "um", "uma", "os", "as"],
-        "ru" => vec!["и", "в", "на", "с", "для", "не", "же", "по", "а", "но"],
+        "en" => vec!["a", "an", "the", "to", "of", "in", "for", "and", "on", "at", "by", "or", "as", "if", "so", "from", "into", "but", "not"],
+        "de" => vec!["der", "die", "das", "für", "zu", "an", "auf", "und", "mit", "in", "ja", "bloß", "während"],
+        "es" => vec!["el", "la", "de", "y", "con", "para", "en", "un", "a", "o", "más", "próximo", "vía"],
+        "fr" => vec!["le", "la", "de", "et", "à", "un", "une", "du", "des", "dans", "sur", "pour", "par", "après", "derrière", "malgré", "opposé", "ô"],
+        "pt" => vec!["o", "a", "de", "e", "com", "para", "em", "um", "uma", "os", "as", "além", "até", "atrás", "próximo", "então", "porém"],
+        "ru" => vec!["и", "в", "на", "с", "для", "не", "же", "по", "а", "но", "путём"],
         _ => vec![],
     }
 }
@@ -483,16 +542,16 @@ impl Prop for Ranking {
     }
     fn streams(&self) -> Vec<Stream> {
         match self.0 {
-            Which::Verdicts => vec![Stream::new("stores", 1600, 16000)],
-            Which::Order => vec![Stream::new("stores", 800, 8000)],
-            Which::Rules => vec![Stream::new("rules", 2800, 28000)],
-            Which::Empty => vec![Stream::new("stores", 8000, 80000)],
+            Which::Verdicts => vec![Stream::new("stores", 6400, 64000)],
+            Which::Order => vec![Stream::new("stores", 3200, 32000)],
+            Which::Rules => vec![Stream::new("rules", 8400, 84000)],
+            Which::Empty => vec![Stream::new("stores", 32000, 320000)],
         }
     }
     fn floors(&self) -> Vec<(&'static str, u64, u64)> {
         match self.0 {
             Which::Verdicts => vec![("truncated (more matches than limit)", 200, 2000), ("beyond the 10x cap (soundness only)", 100, 1000), ("limit 0", 50, 500), ("selection buffer refilled (matches >= 2*limit)", 100, 1000), ("store with tied ratings (set comparison)", 50, 500), ("empty query", 50, 500)],
-            Which::Order => vec![("pair stores", 2000, 20000), ("permuted stores", 2000, 20000), ("searches with >= 2 hits", 300, 3000), ("truncated lists compared across permutations", 30, 300)],
+            Which::Order => vec![("pair stores", 2000, 20000), ("permuted stores", 2000, 20000), ("searches with >= 2 hits", 300, 3000), ("truncated lists compared across permutations", 30, 300), ("stores of similar words", 500, 5000)],
             Which::Rules => vec![("rule exact>typo", 500, 5000), ("rule both>one", 500, 5000), ("rule prefix: exact>tail", 500, 5000), ("rule adjacent>gap", 500, 5000), ("rule first>second", 500, 5000), ("rule identical titles: rating decides", 300, 3000), ("rule equal rating: shorter title first", 300, 3000), ("rule function word: content word first", 1000, 10000)],
             Which::Empty => vec![("searches after further adds", 1000, 10000), ("truncated lists with tied ratings", 500, 5000), ("stores with distinct ratings", 500, 5000), ("limit 0", 100, 1000)],
         }
